@@ -104,6 +104,43 @@ def deep_equal(a, b):
     return a == b
 
 
+def expected_result_type(ResultType, v):
+    """the documented classification of a value, written down independently of the library's own classifier"""
+    import numpy as np
+    import pandas as pd
+    from twosigma.memento.partition import Partition
+    if v is None:
+        return ResultType.null
+    if isinstance(v, bool):
+        return ResultType.boolean
+    if isinstance(v, str):
+        return ResultType.string
+    if isinstance(v, bytes):
+        return ResultType.binary
+    if isinstance(v, (int, float)):
+        return ResultType.number
+    if isinstance(v, datetime.datetime):          # includes pandas.Timestamp: an instant, not a calendar date
+        return ResultType.timestamp
+    if isinstance(v, datetime.date):
+        return ResultType.date
+    if isinstance(v, list):
+        return ResultType.list_result
+    if isinstance(v, dict):
+        return ResultType.dictionary
+    if isinstance(v, pd.Index):
+        return ResultType.index
+    if isinstance(v, pd.Series):
+        return ResultType.series
+    if isinstance(v, pd.DataFrame):
+        return ResultType.data_frame
+    if isinstance(v, np.ndarray):
+        return {"bool": ResultType.array_boolean, "int8": ResultType.array_int8, "int16": ResultType.array_int16, "int32": ResultType.array_int32,
+                "int64": ResultType.array_int64, "float32": ResultType.array_float32, "float64": ResultType.array_float64}.get(str(v.dtype))
+    if isinstance(v, Partition):
+        return ResultType.partition
+    return None
+
+
 EXC_KINDS = ["ValueError", "KeyError", "ZeroDivisionError", "LocalOnly", "NonMemoized", "FnLocal", "Nested"]
 
 
@@ -153,6 +190,9 @@ def run(tier, seed):
                     ({"k": "part", "v": [["k1", {"k": "nd", "v": [2.5] * 80, "dtype": "float64", "shape": [80]}]]}, "fs_cache", "normal"),
                     ({"k": "str", "v": "z" * 2000}, "fs_tinycache", "normal"),
                     ({"k": "npscalar", "v": 3.5, "dtype": "float64"}, "fs", "normal"),
+                    ({"k": "pdts", "v": "2021-03-04T05:06:07"}, "fs", "normal"),
+                    ({"k": "pdts", "v": "2021-03-04T05:06:07+02:00"}, "mem", "normal"),
+                    ({"k": "part", "v": [["k1", {"k": "pdts", "v": "2020-01-02T03:04:05"}]]}, "fs_cache", "normal"),
                     ({"k": "npscalar", "v": 3.5, "dtype": "float64"}, "mem", "normal"),
                     ({"k": "list", "v": [{"k": "npscalar", "v": 1.5, "dtype": "float64"}, {"k": "int", "v": 2}]}, "fs", "normal"),
                     ({"k": "part", "v": [["k1", {"k": "npscalar", "v": 4.5, "dtype": "float64"}]]}, "fs", "normal"),
@@ -220,10 +260,7 @@ def run(tier, seed):
                 rep.violation("C02:no-memento:%s" % desc["k"], "no memento after the call", meta)
             else:
                 rt = mm.invocation_metadata.result_type
-                try:
-                    want_rt = ResultType.from_object(v2)
-                except Exception:
-                    want_rt = None
+                want_rt = expected_result_type(ResultType, v2)
                 if rt != want_rt:
                     rep.violation("C02:result-type-mismatch:%s" % desc["k"], "recorded result type %s, the value read back is a %s" % (rt, want_rt), meta)
             # forgetting the call makes exactly it run again
